@@ -201,7 +201,7 @@ fn threads(ctx: &Ctx, rep: &mut Report) {
                                 _ => {},
                             }
                             let start = TICK.fetch_add(1, Ordering::SeqCst);
-                            let d = run_job(&jobs[ji], &mine);
+                            let d = no_panic(|| run_job(&jobs[ji], &mine)).unwrap_or_else(|p| format!("PANIC: {p}"));
                             let end = TICK.fetch_add(1, Ordering::SeqCst);
                             out.push((ji, start, end, d));
                         }
@@ -224,7 +224,7 @@ fn threads(ctx: &Ctx, rep: &mut Report) {
                     if mismatches == 1 {
                         rep.violation(
                             &format!("C18 concurrent-result-differs [{}]", ["prove", "VerifyOnly", "RecoverAndVerify", "RecoverOnly", "clone-params", "tampered"][jobs[*ji].kind % 6]),
-                            &format!("with {t} threads sharing one parameter object, a call returned a result different from the sequential baseline (job kind {})", jobs[*ji].kind % 6),
+                            &format!("with {t} threads sharing one parameter object, a call returned a result different from the sequential baseline (job kind {}){}", jobs[*ji].kind % 6, if d.starts_with("PANIC") { format!(": {d}") } else { String::new() }),
                             replay.clone(),
                         );
                     }
